@@ -1314,6 +1314,52 @@ func ruleOrigin(c *Ctx) {
 			c.check(g != nil, fnName(fn), "header authentication only for an allowed origin", p.InstrPos(call), "dominated by upgrader.CheckOrigin(r)", "an auth request is made for a forbidden origin")
 		}
 	}
+	// the origin test of the upgrader is the one installed with the service's upgrader: nobody replaces it
+	// afterwards, not on the service's upgrader and not on a per-request copy of it
+	if fUp := p.Field("server.Service.upgrader"); fUp != nil {
+		nSt := 0
+		for _, fn := range p.Repo {
+			for _, in := range instrsOf(fn) {
+				st, ok := in.(*ssa.Store)
+				if !ok {
+					continue
+				}
+				fa, ok := st.Addr.(*ssa.FieldAddr)
+				if !ok {
+					continue
+				}
+				f := fieldOfAddr(fa)
+				if f == nil || f.Name() != "CheckOrigin" || f.Pkg() == nil || !strings.Contains(f.Pkg().Path(), "websocket") {
+					continue
+				}
+				nSt++
+				c.inst(1)
+				okSt := false
+				switch b := fa.X.(type) {
+				case *ssa.FieldAddr:
+					okSt = fieldOfAddr(b) == fUp
+				case *ssa.Alloc:
+					// a literal built in a temporary and then stored into the service's field
+					for _, r := range *b.Referrers() {
+						if u, isU := r.(*ssa.UnOp); isU && u.Op == token.MUL {
+							for _, r2 := range *u.Referrers() {
+								if s2, isS := r2.(*ssa.Store); isS && s2.Val == ssa.Value(u) {
+									if fa2, isFA := s2.Addr.(*ssa.FieldAddr); isFA && fieldOfAddr(fa2) == fUp {
+										okSt = true
+									}
+								}
+							}
+						}
+					}
+				}
+				c.check(okSt, fnName(fn), "the upgrader's origin test is set only where the service's upgrader is built", p.InstrPos(st), "part of the literal stored into Service.upgrader", "the origin test of an upgrader is replaced outside the construction of the service's upgrader (a per-request copy whose test always passes): an origin that is not on the allow-list is upgraded")
+			}
+		}
+		if nSt == 0 {
+			c.inst(1)
+			c.viol("server.Service.upgrader", "the upgrader's origin test is set only where the service's upgrader is built", "-", "no store to CheckOrigin found")
+		}
+	}
 	if fn := p.Fn("(*server.Service).apiHandler"); fn != nil {
 		sch := p.Method("server.Service.setCommonHeaders")
 		for _, call := range callsIn(fn) {
@@ -1378,6 +1424,87 @@ func ruleThrottle(c *Ctx) {
 	fLimit := p.Field("rescache.Throttle.limit")
 	fQueue := p.Field("rescache.Throttle.queue")
 	if fn := p.Fn("(*rescache.Throttle).Add"); fn != nil {
+		// check-then-act in one critical section: the decision "no slot free" and the queueing of the closure
+		// (or "a slot is free" and taking it) are not separated by an unlock — a Done landing in between would
+		// find nothing queued, and the closure queued afterwards is never started
+		{
+			c.inst(1)
+			sp := &Spec{InlineHelpers: true}
+			sp.Classify = func(t *Tracer, fr *Frame, in ssa.Instruction) []Ev {
+				if k, ok := isMutexCall(in); ok {
+					return []Ev{{Kind: k}}
+				}
+				if _, ok := isStoreToT(t, fr, in, fQueue); ok {
+					return []Ev{{Kind: "enqueue"}}
+				}
+				if st, ok := isStoreToT(t, fr, in, fRun); ok {
+					if b, isB := st.Val.(*ssa.BinOp); isB && b.Op == token.ADD {
+						return []Ev{{Kind: "take"}}
+					}
+				}
+				return nil
+			}
+			sp.Branch = func(t *Tracer, fr *Frame, i *ssa.If, dir bool) []Ev {
+				b, ok := i.Cond.(*ssa.BinOp)
+				if !ok {
+					return nil
+				}
+				f1, _ := fieldLoad(b.X)
+				f2, _ := fieldLoad(b.Y)
+				if f1 != fRun || f2 != fLimit {
+					return nil
+				}
+				full := false
+				switch b.Op {
+				case token.GEQ:
+					full = dir
+				case token.LSS:
+					full = !dir
+				default:
+					return nil
+				}
+				if full {
+					return []Ev{{Kind: "full"}}
+				}
+				return []Ev{{Kind: "free"}}
+			}
+			tr := runTrace(p, fn, sp)
+			bad := ""
+			for _, path := range tr.Paths {
+				for _, pr := range [][2]string{{"full", "enqueue"}, {"free", "take"}} {
+					di, ai := indexKind(path, pr[0]), indexKind(path, pr[1])
+					if di < 0 {
+						continue
+					}
+					if ai < di {
+						bad = "the throttle decides \"" + pr[0] + "\" and does not act on it (" + pr[1] + ") on this path: " + tr.FmtPath(path)
+						continue
+					}
+					depth := 0
+					for _, e := range path[:di] {
+						switch e.Kind {
+						case "lock":
+							depth++
+						case "unlock":
+							depth--
+						}
+					}
+					cut := depth < 1
+					for _, e := range path[di:ai] {
+						if e.Kind == "unlock" {
+							cut = true
+						}
+					}
+					if cut {
+						bad = "the throttle's decision (" + pr[0] + ") and its consequence (" + pr[1] + ") are not in one critical section: an answer's Done landing in between finds nothing queued, and the closure queued afterwards is never started — the governed request is never sent: " + tr.FmtPath(path)
+					}
+				}
+			}
+			if tr.Trunc {
+				bad = "path budget exhausted"
+			}
+			c.check(bad == "", fnName(fn), "capacity decision and its consequence lie in one critical section", p.Pos(fn.Pos()), fmt.Sprintf("%d paths", len(tr.Paths)), bad)
+		}
 		for _, st := range p.stores[fRun] {
 			if st.Parent() != fn {
 				continue
